@@ -157,10 +157,11 @@ prop('C09',
      ])
 
 prop('C14',
-     units=['order', 'dtree'],
+     units=['order', 'dtree', 'vtreed'],
      assumptions=[A_VERUS, A_EXTRACT,
                   'A-bitset / A-varset: BitSet insert/contains behave as a set of usize; the VarSet wrappers new/union/minus/intersect_varset (one-line functions over BitSet iterators) compute the set operation they name',
                   'A-clone: the derived Clone of DTree is a structural copy; Vec<Literal>::clone returns an equal vector',
+                  'A-varset-iter: where VTree::from_dtree collects `cutset.iter()` the vector is a stub holding exactly the elements of the set, each once, in some order; the derived Clone of BTree is a structural copy',
                   'A-order-iter / A-cnf-stub: in unit dtree VarOrder::in_order_iter() is a stub yielding SOME sequence of labels (nothing assumed) and Cnf is the opaque stub exposing its clause list', A_TERM],
      replay={'order': 'order', 'dtree': 'dtree', '*': 'order'},
      bounded_extra=['vtree'],
@@ -170,7 +171,7 @@ prop('C14',
      not_covered=[
          'VarOrder::linear_order is under contract (the identity order: label v at level v) with one declared rewrite (R-map-collect over the range) [+ bounded check `order`]',
          'min-fill (petgraph) and FORCE (f64, sort_by, partial_cmp) order heuristics [bounded check `order` only: the result is a bijection]',
-         'DTree::from_cnf is under contract -- the leaves are exactly the clauses of the formula (every clause occurs at the leaves as often as in the formula), vars = clause variables at a leaf / union of the children at a node everywhere, cutsets = shared by the children and not cut above, for ANY sequence of labels as elimination order -- with three declared rewrites that replace std iterator adaptors by their definition over the same elements (R-map-collect, R-partition, R-for-while over the stub of in_order_iter: A-order-iter); it requires at least one clause (for the empty formula the real function panics in `balanced`: there is no dtree without leaves) [+ bounded check `dtree`]; cutwidth is not under contract', 'VTree::from_dtree (cutset.iter().collect()) [bounded check `dtree` only], VTreeManager [bounded check `vtree` only: dense labels, <= 6 leaves; it found the variable-count defect fixed in ad19bb4] (in-order indices, lca via segment tree, prime test, variable count)',
+         'DTree::from_cnf is under contract -- the leaves are exactly the clauses of the formula (every clause occurs at the leaves as often as in the formula), vars = clause variables at a leaf / union of the children at a node everywhere, cutsets = shared by the children and not cut above, for ANY sequence of labels as elimination order -- with three declared rewrites that replace std iterator adaptors by their definition over the same elements (R-map-collect, R-partition, R-for-while over the stub of in_order_iter: A-order-iter); it requires at least one clause (for the empty formula the real function panics in `balanced`: there is no dtree without leaves) [+ bounded check `dtree`]; cutwidth is not under contract', 'VTree::from_dtree and right_linear_c are under contract (unit vtreed) -- for a dtree with vars_ok and cut_ok the derived vtree is None exactly when no variable is left uncut, and otherwise has every variable of the subtree that the ancestors have not cut as EXACTLY ONE leaf (with from_cnf: every variable of the formula exactly once) -- with declared rewrites (R-slice-pattern for the five arms of right_linear_c, `match &&dtree` -> `match dtree`) and the collected cutset as a stub (A-varset-iter: exactly the elements of the set, each once, in some order); the SHAPE of the vtree (right-linear spines) is deliberately not part of the contract [+ bounded check `dtree`]', 'VTreeManager [bounded check `vtree` only: dense labels, <= 6 leaves; it found the variable-count defect fixed in ad19bb4] (in-order indices, lca via segment tree, prime test, variable count)',
      ])
 
 prop('C05',
